@@ -16,6 +16,9 @@ type mop struct {
 	Val  int64
 	Lit  [][2]any // for eq: pairs
 	Body []mop
+	// loop: written without a loop variable (`for range m`); the body then has no operation on the loop variable.
+	// The model is asked the same question (it visits the keys one by one); the program prints "@" per iteration.
+	NoVar bool
 }
 
 var c12Keys = []string{"a", "b", "c", "k1"}
@@ -83,11 +86,12 @@ func (s *c12Shadow) eqLit(rng *rand.Rand) [][2]any {
 	return lit
 }
 
-func genC12Ops(rng *rand.Rand, n int, depth int, inLoop bool, sh *c12Shadow, initial [][2]any) []mop {
+func genC12Ops(rng *rand.Rand, n int, depth int, inLoop bool, sh *c12Shadow, initial [][2]any, varKeys ...bool) []mop {
+	useVar := inLoop && (len(varKeys) == 0 || varKeys[0])
 	ops := make([]mop, 0, n)
 	for i := 0; i < n; i++ {
 		key := c12Keys[rng.Intn(len(c12Keys))]
-		if inLoop && rng.Intn(3) == 0 {
+		if useVar && rng.Intn(3) == 0 {
 			key = ""
 		}
 		switch k := rng.Intn(20); {
@@ -125,7 +129,8 @@ func genC12Ops(rng *rand.Rand, n int, depth int, inLoop bool, sh *c12Shadow, ini
 			}
 		default:
 			if depth < 2 {
-				ops = append(ops, mop{Kind: "loop", Body: genC12Ops(rng, rng.Intn(4), depth+1, true, sh, initial)})
+				novar := rng.Intn(3) == 0
+				ops = append(ops, mop{Kind: "loop", NoVar: novar, Body: genC12Ops(rng, rng.Intn(4), depth+1, true, sh, initial, !novar)})
 			} else {
 				ops = append(ops, mop{Kind: "print"})
 			}
@@ -251,7 +256,11 @@ func c12Render(lit [][2]any, ops []mop, rng *rand.Rand) string {
 				fmt.Fprintf(&b, "%sm = (fresh)\n%sm2 = m\n%sm3 = m2\n%sw = m\n%sm4 = w.({}num)\n", indent, indent, indent, indent, indent)
 			case "loop":
 				v := fmt.Sprintf("k%d", depth)
-				fmt.Fprintf(&b, "%sfor %s := range %s\n%s    print %s\n", indent, v, a, indent, v)
+				if o.NoVar {
+					fmt.Fprintf(&b, "%sfor range %s\n%s    print \"@\"\n", indent, a, indent)
+				} else {
+					fmt.Fprintf(&b, "%sfor %s := range %s\n%s    print %s\n", indent, v, a, indent, v)
+				}
 				emit(o.Body, indent+"    ", v, depth+1)
 				fmt.Fprintf(&b, "%send\n", indent)
 			}
@@ -259,6 +268,72 @@ func c12Render(lit [][2]any, ops []mop, rng *rand.Rand) string {
 	}
 	emit(ops, "", "", 0)
 	return b.String()
+}
+
+// c12NoVarSig: which loops of the history are written without a loop variable (part of the identity of a case)
+func c12NoVarSig(ops []mop) string {
+	var b strings.Builder
+	var walk func(ops []mop)
+	walk = func(ops []mop) {
+		for _, o := range ops {
+			if o.Kind == "loop" {
+				if o.NoVar {
+					b.WriteByte('n')
+				} else {
+					b.WriteByte('v')
+				}
+				walk(o.Body)
+			}
+		}
+	}
+	walk(ops)
+	return b.String()
+}
+
+// c12LoopHistory: histories centred on loops that change the map they iterate: a few operations, then a loop
+// (with or without loop variable) whose body deletes / inserts / overwrites keys that were visited, are being
+// visited or are still to come (through any alias or the helper procedures), nested loops over the same map,
+// then the map is observed. The number of "@" / key lines IS the number of iterations.
+func c12LoopHistory(rng *rand.Rand, sh *c12Shadow, initial [][2]any) []mop {
+	var body func(depth int, novar bool) []mop
+	body = func(depth int, novar bool) []mop {
+		var ops []mop
+		for i, n := 0, 1+rng.Intn(4); i < n; i++ {
+			key := c12Keys[rng.Intn(len(c12Keys))]
+			if !novar && rng.Intn(3) == 0 {
+				key = ""
+			}
+			switch k := rng.Intn(12); {
+			case k < 5:
+				ops = append(ops, mop{Kind: "del", Key: key})
+			case k < 7:
+				ops = append(ops, mop{Kind: "set", Key: key, Val: int64(rng.Intn(9))})
+			case k < 8:
+				ops = append(ops, mop{Kind: "has", Key: key})
+			case k < 9:
+				ops = append(ops, mop{Kind: "len"})
+			case k < 10:
+				ops = append(ops, mop{Kind: "print"})
+			default:
+				if depth < 2 {
+					nv := rng.Intn(2) == 0
+					ops = append(ops, mop{Kind: "loop", NoVar: nv, Body: body(depth+1, nv)})
+				} else {
+					ops = append(ops, mop{Kind: "len"})
+				}
+			}
+		}
+		return ops
+	}
+	ops := genC12Ops(rng, rng.Intn(3), 2, false, sh, initial)
+	for i, n := 0, 1+rng.Intn(2); i < n; i++ {
+		nv := rng.Intn(3) > 0
+		ops = append(ops, mop{Kind: "loop", NoVar: nv, Body: body(1, nv)}, mop{Kind: "print"}, mop{Kind: "len"})
+		if rng.Intn(3) == 0 {
+			ops = append(ops, mop{Kind: "set", Key: c12Keys[rng.Intn(len(c12Keys))], Val: int64(rng.Intn(9))})
+		}
+	}
+	return ops
 }
 
 func c12Nontrivial(ops []mop) bool {
@@ -289,7 +364,7 @@ func c12Nontrivial(ops []mop) bool {
 func c12Check(lit [][2]any, ops []mop, renderSeed int64, model *Model, r *Result) {
 	src := c12Render(lit, ops, rand.New(rand.NewSource(renderSeed)))
 	caseSX := Lst(c12LitSX(lit), c12OpsSX(ops))
-	r.Count(caseSX.String(), c12Nontrivial(ops))
+	r.Count(caseSX.String()+c12NoVarSig(ops), c12Nontrivial(ops))
 	out := RunEvy(src, RunOpts{})
 	ans, err := model.Ask(caseSX.String())
 	if err != nil {
@@ -320,7 +395,18 @@ func c12Check(lit [][2]any, ops []mop, renderSeed int64, model *Model, r *Result
 	}
 	r.Dist("status:" + istat)
 	r.Validated++
-	if istat != mstat || strings.Join(iouts, "\x1e") != strings.Join(mouts, "\x1e") {
+	// an iteration of a loop without loop variable prints "@" where the model prints the key it visits
+	cmpouts := append([]string(nil), mouts...)
+	for i, o := range iouts {
+		if o == "@" && i < len(cmpouts) {
+			for _, k := range c12Keys {
+				if cmpouts[i] == k {
+					cmpouts[i] = "@"
+				}
+			}
+		}
+	}
+	if istat != mstat || strings.Join(iouts, "\x1e") != strings.Join(cmpouts, "\x1e") {
 		key := "history-output-differs"
 		if istat != mstat {
 			key = "history-status-differs:" + istat + "-vs-" + mstat
@@ -343,7 +429,7 @@ func runC12(cfg Config, r *Result) {
 		return
 	}
 	defer model.Close()
-	r.Rule = "random histories over keys {a,b,c,k1}: literal of 0-4 pairs, then up to L operations (set/del/get/has/len/print/==literal/nested loops over the same map with body operations, key operand = literal or loop variable), rendered as an evy program through 4 aliases (direct, :=, via any + type assertion, via procedure parameters) and alternative syntaxes; non-trivial = at least 3 operations with a mutation that is later observed; distinct = distinct (literal, operation list)"
+	r.Rule = "random histories over keys {a,b,c,k1}: literal of 0-4 pairs, then up to L operations (set/del/get/has/len/print/==literal/nested loops over the same map with body operations, key operand = literal or loop variable; loops written with a loop variable or as `for range m` without one, the iteration count observed by one printed line per iteration; loop-centred histories whose bodies delete / insert visited, current and coming keys), rendered as an evy program through 4 aliases (direct, :=, via any + type assertion, via procedure parameters) and alternative syntaxes; non-trivial = at least 3 operations with a mutation that is later observed; distinct = distinct (literal, operation list)"
 	// corpus first
 	for _, c := range c12Corpus {
 		c12Check(c.lit, c.ops, 1, model, r)
@@ -357,6 +443,12 @@ func runC12(cfg Config, r *Result) {
 		ops := genC12Ops(cfg.Rng, 1+cfg.Rng.Intn(maxLen), 0, false, sh, lit)
 		c12Check(lit, ops, cfg.Rng.Int63(), model, r)
 	}
+	for i := 0; i < cfg.N(400, 10000); i++ {
+		lit := genC12Lit(cfg.Rng, 1+cfg.Rng.Intn(4))
+		sh := &c12Shadow{}
+		sh.reset(lit)
+		c12Check(lit, c12LoopHistory(cfg.Rng, sh, lit), cfg.Rng.Int63(), model, r)
+	}
 	// deep equality of maps holding shared / copied / different composite values, through the evaluator model
 	sem := startSem(r)
 	if sem == nil {
@@ -366,6 +458,10 @@ func runC12(cfg Config, r *Result) {
 	r.Rule += "; deep-equality programs (maps of arrays / maps of maps with shared, copied and different inner cells, all == / != pairs in both directions, before and after an update through an alias) compared with the evaluator model"
 	for i := 0; i < cfg.N(250, 5000); i++ {
 		semCase(sem, r, c12DeepEq(cfg.Rng), SemOpts{StopAt: -1, YieldBudget: 50000}, true, "deepeq:")
+	}
+	r.Rule += "; loops without a loop variable whose body deletes / inserts keys (directly, alias, procedure, nested, inside functions, map held in any / array element), iteration counts compared with the twin loop with a variable and with the evaluator model"
+	for i := 0; i < cfg.N(200, 4000); i++ {
+		c12NoVarCase(sem, r, c12NoVarLoops(cfg.Rng))
 	}
 }
 
@@ -471,4 +567,112 @@ var c12Corpus = []c12Case{
 	{[][2]any{{"a", int64(1)}, {"b", int64(2)}}, []mop{{Kind: "loop", Body: []mop{{Kind: "del", Key: ""}, {Kind: "set", Key: "", Val: 4}, {Kind: "len"}}}, {Kind: "print"}, {Kind: "eq", Lit: [][2]any{{"b", int64(4)}, {"a", int64(4)}}}}},
 }
 
-func init() { register("C12", runC12) }
+func init() {
+	abc := [][2]any{{"a", int64(1)}, {"b", int64(2)}, {"c", int64(3)}}
+	c12Corpus = append(c12Corpus,
+		// loops without a loop variable: a key deleted before its turn is not visited
+		c12Case{abc, []mop{{Kind: "loop", NoVar: true, Body: []mop{{Kind: "del", Key: "c"}}}, {Kind: "print"}, {Kind: "len"}}},
+		c12Case{abc, []mop{{Kind: "loop", NoVar: true, Body: []mop{{Kind: "del", Key: "a"}, {Kind: "del", Key: "b"}, {Kind: "del", Key: "c"}, {Kind: "len"}}}, {Kind: "print"}}},
+		c12Case{abc, []mop{{Kind: "loop", NoVar: true, Body: []mop{{Kind: "set", Key: "k1", Val: 4}, {Kind: "del", Key: "b"}, {Kind: "set", Key: "b", Val: 5}}}, {Kind: "print"}}},
+		c12Case{abc, []mop{{Kind: "loop", NoVar: true, Body: []mop{{Kind: "loop", NoVar: true, Body: []mop{{Kind: "del", Key: "b"}}}, {Kind: "len"}}}, {Kind: "print"}}},
+		c12Case{abc, []mop{{Kind: "loop", Body: []mop{{Kind: "loop", NoVar: true, Body: []mop{{Kind: "del", Key: "c"}, {Kind: "set", Key: "c", Val: 7}}}, {Kind: "del", Key: ""}}}, {Kind: "print"}}},
+	)
+	register("C12", runC12)
+}
+
+// c12NoVarLoops: `for range m` (no loop variable) over a map whose body changes the map - deletes keys that are
+// still to come, the current one, visited ones, re-inserts, inserts new keys; directly, through an alias, through a
+// procedure, in a nested loop, inside a function that is given the map - and counts its iterations. The same body
+// runs in a twin loop WITH a loop variable over an equal map: "a key deleted before its turn is not visited"
+// holds for both forms, so both count the same (line "twin" must print true). Everything printed is also
+// compared with the evaluator model (coq/Sem.v).
+func c12NoVarLoops(rng *rand.Rand) string {
+	var b strings.Builder
+	w := func(f string, a ...any) { fmt.Fprintf(&b, f+"\n", a...) }
+	keys := []string{"a", "b", "c", "d", "e"}[:2+rng.Intn(4)]
+	extra := []string{"x", "y"}
+	var pairs []string
+	for i, k := range keys {
+		pairs = append(pairs, fmt.Sprintf("%s:%d", k, i+1))
+	}
+	lit := "{" + strings.Join(pairs, " ") + "}"
+	w("func delk mm:{}num k:string\n    del mm k\nend")
+	w("func drain:num mm:{}num\n    cnt := 0\n    for range mm\n        cnt = cnt + 1\n        for k := range mm\n            del mm k\n        end\n    end\n    return cnt\nend")
+	w("func visits:num mm:{}num victim:string\n    cnt := 0\n    for range mm\n        cnt = cnt + 1\n        del mm victim\n    end\n    return cnt\nend")
+	anyKey := func() string {
+		if rng.Intn(5) == 0 {
+			return extra[rng.Intn(len(extra))]
+		}
+		return keys[rng.Intn(len(keys))]
+	}
+	// body lines with placeholders: $M map, $A alias, $N counter
+	var body func(ind string, depth int) []string
+	body = func(ind string, depth int) []string {
+		var l []string
+		for i, n := 0, 1+rng.Intn(4); i < n; i++ {
+			k := anyKey()
+			switch c := rng.Intn(14); {
+			case c < 3:
+				l = append(l, fmt.Sprintf("%sdel $M %q", ind, k))
+			case c < 5:
+				l = append(l, fmt.Sprintf("%sdel $A %q", ind, k))
+			case c < 6:
+				l = append(l, fmt.Sprintf("%sdelk $M %q", ind, k))
+			case c < 7:
+				l = append(l, fmt.Sprintf("%s$M.%s = $N * 10", ind, k))
+			case c < 8:
+				l = append(l, fmt.Sprintf("%s$A[%q] = $N", ind, k))
+			case c < 10 && depth < 2:
+				l = append(l, fmt.Sprintf("%sif $N == %d", ind, 1+rng.Intn(3)))
+				l = append(l, body(ind+"    ", depth+1)...)
+				l = append(l, ind+"end")
+			case c < 11 && depth < 2:
+				l = append(l, fmt.Sprintf("%sfor range $M", ind), ind+"    $N = $N + 100")
+				l = append(l, body(ind+"    ", depth+2)...)
+				l = append(l, ind+"end")
+			case c < 12:
+				l = append(l, fmt.Sprintf("%sprint \"in\" $N (len $M) (has $A %q)", ind, k))
+			case c < 13 && depth == 0:
+				l = append(l, fmt.Sprintf("%sif $N > %d\n%s    break\n%send", ind, 1+rng.Intn(4), ind, ind))
+			default:
+				l = append(l, fmt.Sprintf("%sdel $M %q\n%s$M.%s = 0", ind, k, ind, k))
+			}
+		}
+		return l
+	}
+	lines := body("    ", 0)
+	inst := func(m, a, n string) string {
+		return strings.NewReplacer("$M", m, "$A", a, "$N", n).Replace(strings.Join(lines, "\n"))
+	}
+	w("m := %s\nma := m\nn := 0", lit)
+	w("for range m\n    n = n + 1\n%s\nend", inst("m", "ma", "n"))
+	w("print \"novar\" n m (len ma)")
+	w("t := %s\nta := t\nnt := 0", lit)
+	w("for kk := range t\n    nt = nt + 1\n    if kk == \"\"\n        print kk\n    end\n%s\nend", inst("t", "ta", "nt"))
+	w("print \"withvar\" nt t (len ta)")
+	w("print \"twin\" (n == nt) (m == t)")
+	// inside functions
+	w("f := %s", lit)
+	victim := anyKey()
+	w("print \"visits\" (visits f %q) f", victim)
+	w("g := %s\nprint \"drain\" (drain g) g (len g)", lit)
+	// a loop without loop variable over a map held in an any / an array element / a map value
+	w("w:any\nw = %s\nnw := 0\nfor range w.({}num)\n    nw = nw + 1\n    del w.({}num) %q\nend\nprint \"any\" nw w", lit, anyKey())
+	w("arr := [%s %s]\nna := 0\nfor range arr[1]\n    na = na + 1\n    del arr[1] %q\n    del arr[0] %q\nend\nprint \"elem\" na arr", lit, lit, anyKey(), anyKey())
+	return b.String()
+}
+
+func c12NoVarCase(model *Model, r *Result, src string) {
+	d := semCase(model, r, src, SemOpts{StopAt: -1, YieldBudget: 50000}, true, "novar-loop:")
+	if d.Skipped != "" || len(d.Impl.Phases) == 0 {
+		return
+	}
+	for _, t := range d.Impl.Phases[0].Trace {
+		if strings.HasPrefix(t, "print:twin ") && strings.Contains(t, "false") {
+			r.Violate(Violation{Kind: "property", Key: "novar-loop:iterations-differ-from-loop-with-variable",
+				Detail: "`for range m` and `for k := range m` with the same body over equal maps run a different number of times / leave different maps: a key deleted before its turn must not be visited in either form (" + strings.TrimSpace(t) + ")",
+				Input:  map[string]any{"program": src}, Impl: d.Impl.Phases})
+			return
+		}
+	}
+}
